@@ -701,6 +701,22 @@ class Nullness:
                 # a call result is not known to be None; containers and
                 # non-None constants are objects
                 kind = 'obj' if not isinstance(v, _ast.Call) else 'obj?'
+                if isinstance(v, _ast.Call) and (
+                        (isinstance(v.func, _ast.Attribute) and
+                         v.func.attr in ('decode', 'encode', 'format',
+                                         'join', 'lower', 'upper', 'strip',
+                                         'lstrip', 'rstrip', 'split',
+                                         'partition', 'rpartition',
+                                         'replace', 'items', 'keys',
+                                         'values', 'copy')) or
+                        (isinstance(v.func, _ast.Name) and
+                         v.func.id in ('str', 'bytes', 'int', 'float',
+                                       'list', 'dict', 'tuple', 'set',
+                                       'frozenset', 'len', 'bool', 'repr',
+                                       'sorted', 'bytearray'))):
+                    # (what str / bytes methods and the builtin
+                    # constructors give is never None)
+                    kind = 'obj'
                 return self._set(st, '$ret', kind)
             return self._set(st, '$ret', None)
         if n.kind == 'stmt' and isinstance(n.ast, _ast.Assign) and \
